@@ -166,6 +166,22 @@ def check_models(ctx, models, label):
                     ctx.sample({"model": m, "dsl": a[1]})
         # losslessness: parse what was printed
         back = [tf.norm_impl_dsl(r) for r in tf.impl_dsl(ctx, texts, False)]
+        # the document-level theorem (Proofs/DocRoundTrip.document_round_trip_decidable), evaluated by the extracted model:
+        # where model_okb says it applies, the implementation's re-read model must be the model [canonical m] it promises
+        try:
+            th = ctx.model(tf.FAM, ["(208 %s)" % sexp.enc(models[k]) for k in idx])
+        except core.ModelUnavailable:
+            th = [None] * len(idx)
+        for k, b, r8 in zip(idx, back, th):
+            if not r8:
+                continue
+            ctx.count("theorem_document_applicable" if r8[0] == 1 else "theorem_document_not_applicable")
+            if r8[0] == 1:
+                if b[0] != "ok":
+                    ctx.violation("theorem-promises-acceptance", {"model": models[k], "why": "the proved round trip applies to this model (model_okb) but the DSL written for it is rejected", "impl": b})
+                elif dslgen.canon_model(r8[1]) != b[1]:
+                    ctx.violation("theorem-rhs-differs", {"model": models[k], "why": "the re-read model differs from the canonical form the proved round trip promises",
+                                                          "promised": dslgen.canon_model(r8[1]), "got": b[1]})
         for k, t, b in zip(idx, texts, back):
             m = models[k]
             want = expected_back(m)
